@@ -860,6 +860,79 @@ func resultNames(sig *types.Signature) []string {
 	return ns
 }
 
+// checkCallbackLit runs a function literal passed as a callback on fresh
+// arguments and obliges what the callee's callback contract promises on its
+// behalf: its preconditions may be assumed, its frame (pure / modifies) and its
+// postconditions must hold. Safety obligations of the body are emitted as usual.
+func (x *Exec) checkCallbackLit(st *State, c *Contract, q, pn string, cb *Contract, cl *closure, psig *types.Signature, at *ast.CallExpr) {
+	probe := st.clone()
+	probe.defers = nil
+	// the callee may call back at any point of its own execution
+	if !c.Pure {
+		if len(c.Modifies) == 0 && len(c.Effects) == 0 && len(c.InstMods) == 0 && !c.Trusted {
+			x.havocHeap(probe, "callback "+pn+" of "+q, nil)
+		} else {
+			x.havocModifies(probe, c.Modifies)
+			pre0 := probe.clone()
+			for _, im := range c.InstMods {
+				x.havocInstance(probe, pre0, im)
+			}
+		}
+	}
+	var cargs []*Value
+	saved := probe.names
+	probe.names = map[string]*Value{}
+	for k, v := range saved {
+		probe.names[k] = v
+	}
+	for i := 0; i < psig.Params().Len(); i++ {
+		v := x.freshValue(psig.Params().At(i).Type(), fmt.Sprintf("cbarg%d", i))
+		x.assumeWellFormed(probe, v)
+		cargs = append(cargs, v)
+		probe.names[fmt.Sprintf("arg%d", i)] = v
+	}
+	for _, r := range cb.Requires {
+		x.assume(probe, x.evalClauseIn(probe, r, at.Pos(), ""))
+	}
+	probe.names = saved
+	pre := probe.clone()
+	savedPrefix, savedProps := x.oblPrefix, x.oblProps
+	x.oblPrefix = fmt.Sprintf("call(%s).callback.%s.", q, pn)
+	x.oblProps = nil
+	if len(cb.Props) > 0 {
+		x.oblProps = cb.Props
+	}
+	outs := x.inlineClosure(probe, cl, cargs, psig)
+	if cb.Pure || cb.Modifies != nil {
+		fc := &Contract{Modifies: append([]string{"alloc"}, cb.Modifies...)}
+		x.checkFrame(probe, pre, fc, at.Pos())
+	}
+	if len(cb.Ensures) > 0 {
+		names := probe.names
+		probe.names = map[string]*Value{}
+		for k, v := range names {
+			probe.names[k] = v
+		}
+		for i, v := range cargs {
+			probe.names[fmt.Sprintf("arg%d", i)] = v
+		}
+		for i, n := range resultNames(psig) {
+			if i < len(outs) {
+				probe.names[n] = outs[i]
+			}
+		}
+		x.oldStack = append(x.oldStack, pre)
+		for _, en := range cb.Ensures {
+			x.skolem = true
+			g := x.evalClauseIn(probe, en, at.Pos(), "")
+			x.skolem = false
+			x.oblige(probe, "post", en.Name, g, at.Pos(), en.Props)
+		}
+		x.oldStack = x.oldStack[:len(x.oldStack)-1]
+	}
+	x.oblPrefix, x.oblProps = savedPrefix, savedProps
+}
+
 func (x *Exec) bindCallee(st *State, callee *types.Func, recv *Value, args []*Value) map[string]*Value {
 	sig := callee.Type().(*types.Signature)
 	names := map[string]*Value{}
@@ -919,6 +992,24 @@ func (x *Exec) applyContract(st *State, c *Contract, callee *types.Func, recv *V
 			}
 		}
 		x.oblige(st, "call-pre", fmt.Sprintf("call(%s).callback.%s", q, pn), x.b.Bool(ok), at.Pos(), nil)
+	}
+	// 0c. function literals passed for parameters that have a callback contract:
+	// the literal's body is checked against that contract (the callee's proof
+	// assumes it), in the state the callee may have produced by then
+	for pn, cb := range c.Callbacks {
+		if x.noSafety != 0 {
+			continue
+		}
+		for i := 0; i < sig.Params().Len() && i < len(args); i++ {
+			if sig.Params().At(i).Name() != pn || args[i] == nil || args[i].Fn == nil || args[i].Fn.lit == nil {
+				continue
+			}
+			psig, ok := sig.Params().At(i).Type().Underlying().(*types.Signature)
+			if !ok {
+				continue
+			}
+			x.checkCallbackLit(st, c, q, pn, cb, args[i].Fn, psig, at)
+		}
 	}
 	// 1. preconditions
 	for _, r := range c.Requires {
